@@ -183,10 +183,23 @@ class Gen:
         for _ in range(rng.randint(0, 2)):
             n = self.nm.new("H_")
             v = self.hids.pop()
+            if rng.random() < 0.15:
+                # host ids have a namespace of their own: the name of a core module / message / constant is legal here
+                cand = [x for x in ("DATA_LOGGER", "MESSAGE_MANAGER", "QUICK_LOGGER", "ACTIVE_CLIENTS", "MAX_MODULES", "TIMING_MESSAGE")
+                        if x not in D.hosts]
+                if cand:
+                    n = rng.choice(cand)
+                    D.features.add("host_named_like_core_object")
             sections["host_ids"].append(f"  {n}: {v}")
             D.hosts[n] = v
         for _ in range(rng.randint(0, 2)):
             n = self.nm.new("MOD_")
+            if rng.random() < 0.15:
+                cand = [x for x in ("LOCAL_HOST", "ALL_HOSTS", "ACTIVE_CLIENTS", "MAX_HOSTS", "CLIENT_INFO", "DATA_COLLECTION")
+                        if x not in D.modules]
+                if cand:
+                    n = rng.choice(cand)
+                    D.features.add("module_named_like_core_object")
             v = self.mids.pop()
             sections["module_ids"].append(f"  {n}: {v}")
             D.modules[n] = v
